@@ -101,6 +101,23 @@ func ForEachSeq(n, L int, fn func(seq []int)) {
 	rec(make([]int, 0, L))
 }
 
+// ForEachSeqLen enumerates all sequences over n symbols of exactly length l.
+func ForEachSeqLen(n, l int, fn func(seq []int)) {
+	cur := make([]int, l)
+	var rec func(i int)
+	rec = func(i int) {
+		if i == l {
+			fn(cur)
+			return
+		}
+		for k := 0; k < n; k++ {
+			cur[i] = k
+			rec(i + 1)
+		}
+	}
+	rec(0)
+}
+
 // BuildBytes wraps a raw byte string as code; seeded prepends seven small pushes so that instructions find
 // operands on the stack.
 func BuildBytes(raw []byte, seeded bool) []byte {
